@@ -64,6 +64,7 @@ def codec_check(res, known, args):
     tie_broken = []
     seen_known = collections.Counter()
     samples_out = []
+    distinct_ir = set()
     for prog_id, p in r["programs"].items():
         if "skipped" in p:
             continue
@@ -75,6 +76,9 @@ def codec_check(res, known, args):
                                "frames": e.get("frames")}, found=True)
                 continue
             n_cases += 1
+            rel = sorted((path, obs) for path, obs in e["observed"].items() if packet_relevant(pid, obs, e["model"].get(path), e["ref"].get(path)) and ":" in obs)
+            if rel:
+                distinct_ir.add((lang, json.dumps(rel)))
             # the tie: model output = observed output, on this property's projection
             tie_ok = True
             for path, obs in e["observed"].items():
@@ -162,8 +166,8 @@ def codec_check(res, known, args):
         "per_language": {"%s %s" % k: v for k, v in sorted(per_lang.items())},
         "outside_modelled_input_space": st["outside_model"], "rejected_by_front_end": st["rejected"],
         "unknown_differences": len(unknown), "known_findings_seen": dict(seen_known),
-        "evaluations": n_cases, "distinct_nontrivial": n_cases,
-        "rule": "one case = (DSL program, language): the real generator's output is extracted to IR, compared with the Coq generator model's output (tie) and validated against the reference compilation by the proved-sound boolean equivalence; programs: decision cells x pairwise option configurations (%s), one program per known-finding cell, seeded random compositions" % res.tier,
+        "evaluations": n_cases, "distinct_nontrivial": len(distinct_ir),
+        "rule": "distinct_nontrivial = number of DISTINCT (language, extracted IR of the property's relevant packets) pairs with at least one step; one case = (DSL program, language): the real generator's output is extracted to IR, compared with the Coq generator model's output (tie) and validated against the reference compilation by the proved-sound boolean equivalence; programs: decision cells x pairwise option configurations (%s), one program per known-finding cell, seeded random compositions" % res.tier,
         "samples": samples_out or [{"note": "no fully validated case in this run"}],
         "engine_cached": r.get("cached", False), "engine_wall_s": r.get("wall_s"),
     })
@@ -283,6 +287,7 @@ def independence_check(res, known, args):
         def close(self):
             pass
     hook = FreshHook()
+    distinct_seq = set()
     rng = random.Random(res.seed)
     progs = det_programs(res.tier, res.seed)
     if res.tier == "quick":
@@ -331,6 +336,8 @@ def independence_check(res, known, args):
             if "steps" not in resp:
                 continue
             n += 1
+            if len(seq) >= 2:
+                distinct_seq.add((pid, tuple(seq)))
             for lang, st in zip(seq, resp["steps"]):
                 files = st.get("files", {"<panic>": st.get("panic", "")})
                 if lang in unstable:
@@ -344,8 +351,8 @@ def independence_check(res, known, args):
         if len(samples_out) < 2:
             samples_out.append({"program": pid, "sequences": [" ".join(s) for s in seqs[:3]], "all_equal_to_alone": True})
     hook.close()
-    res.coverage.update({"programs": compiled, "evaluations": n, "distinct_nontrivial": n,
-                         "rule": "per program: every generator alone in a FRESH PROCESS, then sequences over ONE parsed model (each sequence in a fresh process) (CLI order, reverse, random orders/subsets); each step's files compared with the alone run and the model dump compared before/after each step",
+    res.coverage.update({"programs": compiled, "evaluations": n, "distinct_nontrivial": len(distinct_seq),
+                         "rule": "distinct_nontrivial = distinct (program, generator sequence) pairs with at least two generators in the sequence; per program: every generator alone in a FRESH PROCESS, then sequences over ONE parsed model (each sequence in a fresh process) (CLI order, reverse, random orders/subsets); each step's files compared with the alone run and the model dump compared before/after each step",
                          "samples": samples_out})
 
 
@@ -396,11 +403,13 @@ def lua_check(res, known, args):
         if "lua_verdict" in f and any(re.search(f["lua_verdict"], v[1]) for v in verd):
             res.known.append("finding=%s %s" % (f["id"], f["what"]))
     pf = re.search(r"programs inside the proved fragments: (.*)", out)
-    res.coverage.update({"programs": cases, "evaluations": cases, "distinct_nontrivial": cases, "mismatches": mism,
+    n_eval = sum(sum(eval(v[1]).values()) for v in verd[:1]) if verd else cases
+    n_ok = sum(1 for l in re.findall(r"^   \S+\s+x(\d+)\s+strict", out, re.M))
+    res.coverage.update({"programs": cases, "evaluations": n_eval, "distinct_nontrivial": n_ok, "mismatches": mism,
                          "programs_inside_proved_fragments": pf.group(1) if pf else None,
                          "verdicts": {k: v for k, v in verd}, "fragment_violations": bad,
                          "extractor_selftest": selft.group(0) if selft else None,
-                         "rule": "cell programs (%s configurations) + one program per dissector shape; emitted Lua extracted to the Lua IR and compared with gen_lua (tie); sem_lua of the observed IR over the canonical encoding of boundary messages compared with ranges derived from the wire specification; programs inside lua_frag must agree on every message" % ncfg,
+                         "rule": "evaluations = (program, sample message) oracle runs; distinct_nontrivial = distinct (program family, verdict profile, fragment membership) groups; cell programs (%s configurations) + one program per dissector shape; emitted Lua extracted to the Lua IR and compared with gen_lua (tie); sem_lua of the observed IR over the canonical encoding of boundary messages compared with ranges derived from the wire specification; programs inside lua_frag must agree on every message" % ncfg,
                          "samples": [{"tail_of_report": out[-1200:]}]})
     res.assumptions += ["the Wireshark Lua API as written down in coq/Lua/LuaIR.v (no Lua interpreter or tshark in the sandbox)"]
 
@@ -440,8 +449,8 @@ def cli_check(res, known, args):
     if r.returncode != 0:
         res.known.append("finding=cli-empty-d " + cli_what(known, "cli-empty-d"))
     dist = dict(re.findall(r"^  (\S.*?)\s{2,}(\d+)$", out, re.M))
-    res.coverage.update({"programs": cases, "evaluations": cases, "distinct_nontrivial": cases, "mismatches": mism, "distribution": dist,
-                         "rule": "real binary and real c-shared library (ctypes) run in fresh scratch directories on DSL texts x entry points x flag spellings x all 64 output-flag subsets; stdout, exit code and resulting directory tree compared with the Coq wrapper model instantiated with the real library results (hook)",
+    res.coverage.update({"programs": cases, "evaluations": cases, "distinct_nontrivial": len(dist), "mismatches": mism, "distribution": dist,
+                         "rule": "distinct_nontrivial = number of distinct case groups (entry point x kind of command line) in the distribution; real binary and real c-shared library (ctypes) run in fresh scratch directories on DSL texts x entry points x flag spellings x all 64 output-flag subsets; stdout, exit code and resulting directory tree compared with the Coq wrapper model instantiated with the real library results (hook)",
                          "samples": [{"tail_of_report": out[-1200:]}]})
     res.assumptions += ["OS-level effects (permissions, partial writes, symlinks) are outside the model", "stderr is not compared"]
 
